@@ -533,7 +533,7 @@ def random_case(rng, mode, maxlen=14):
     while len(ops) < n:
         r = rng.random()
         c = rng.randrange(nctx)
-        if r < 0.1 and nctx < 4:
+        if (r < 0.1 or (nctx == 1 and len(ops) >= 2 and r < 0.5)) and nctx < 4:
             ops.append(["spawn", c] if rng.random() < 0.75 else ["fresh"])
             nctx += 1
         elif r < 0.28:
@@ -595,11 +595,11 @@ class Contexts(Stream):
     def cases(self, rng, tier):
         if tier == "quick":
             yield from exhaustive_cases(2, "ctx")
-            for _ in range(1500):
+            for _ in range(3000):
                 yield random_case(rng, "ctx")
-            for _ in range(250):
+            for _ in range(600):
                 yield random_case(rng, "thread", 10)
-            for _ in range(250):
+            for _ in range(600):
                 yield random_case(rng, "async", 10)
         else:
             yield from exhaustive_cases(3, "ctx")
@@ -680,8 +680,8 @@ CHECK = Check(
         "LocalProxy: the three faces with declared fallbacks (_get_current_object, bool, repr) and attribute get/set forwarding are modelled; the ~50 other forwarded dunder methods share the same _ProxyLookup.__get__ path and are not enumerated; proxies to bare ContextVars and callables are not modelled",
     ],
     trusted_extra=["CPython contextvars / threading / asyncio (exercised by the stream, not verified)", "tools/gen/c18.py AST translator (statement subset of local.py -> effect lists)"],
-    quick_budget=2400,
-    thorough_budget=120000,
+    quick_budget=6000,
+    thorough_budget=140000,
 )
 
 MANIFEST = {
